@@ -97,6 +97,14 @@ fn main() {
             let stats = ccmon::mon_c19::run(&tier, seed, num(&args, "--budget-s", 0), out.as_deref());
             finish("C19", stats, out, start.elapsed().as_secs_f64());
         }
+        "golden-gen" => {
+            ccmon::golden::gen(&args[2]);
+        }
+        "golden" => {
+            let path = arg(&args, "--golden").unwrap_or_else(|| format!("/verif/golden/{}/golden.json", &wire::CONFIG[..1]));
+            let stats = ccmon::golden::check(&path);
+            finish("C13", stats, out, start.elapsed().as_secs_f64());
+        }
         "c12" => {
             let stats = ccmon::mon_c12::run(&tier, seed);
             finish("C12", stats, out, start.elapsed().as_secs_f64());
